@@ -472,6 +472,17 @@ theorem b0_g0 : 0 < g0.b0q ∧ |((g0.b0q : ℚ) : ℝ) ^ 2 * (4 * Real.pi) - 1| 
 example : |(3.5449077 : ℝ) * ((g0.b0q : ℚ) : ℝ) - 1| ≤ 1 / 10 ^ 9 :=
   constant_normalization_vs_b0 g0 g0_b0sq
 
+/-- the remaining kernel-checked certificates of the generated grids read as propositions about the
+ certified arrays (review2 E, C01-3): `…_sound` of `Lemmas/SHCert.lean` instantiated on a real grid
+ (`g0`) and, for the padding, on a `FastSphericalHarmonics` grid (`g2`) -/
+example := g0.constOk_sound _ _ g0_const
+example := g0.nonnegOk_sound g0_nonneg
+example := g0.zerosOk_sound g0_mabs g0_zeros
+example := g0.zerosOk_ratBasis g0_mabs g0_zeros
+example := g0.wprodOk_sound _ g0_wprod
+example := g0.nodesOk_sound _ g0_nodes
+example := g2.paddingOk_sound _ _ _ _ g2_padding
+
 theorem roundtrip_g1 : ∀ (x : List (List ℚ)), (∀ row ∈ x, row.length ≤ g1.L) →
     (∀ r' l', (g1_mask.getD r' []).getD l' false ≠ true → ent2 x r' l' = 0) →
     ∀ r l, r < g1.R → l < g1.L →
